@@ -225,14 +225,15 @@ def _mk_env(ctx, n, m):
 
 def step_harness(ctx, name, n, m):
     apply, ref, deps, domain, note = _ops()[name]
+    if name == "f.l2_norm(2)" and n != 2:
+        ctx.reach("end")            # the 2-vector norm is only defined for n == 2 in this harness
+        return None
     e = _mk_env(ctx, n, m)
     for x in e["a"] + e["b"] + e["vv"]:
         ctx.assume(z3.And(x >= -4, x <= 4))
     for c in domain(e):
         ctx.assume(c)
     ctx.assume(UF["log"](rv(2.0)) == rv(math.log(2.0)))
-    if name == "f.l2_norm(2)" and n != 2:
-        return None
     inputs = {"op": name, "n": n, "m": m, "a": e["A"].val, "Ja": dense(e["A"].jac), "b": e["B"].val,
               "Jb": dense(e["B"].jac), "v": e["v"], "S": e["S"].A_}
 
